@@ -45,6 +45,22 @@ def _has_c(x):
     return False
 
 
+class UfuncStub:
+    """callable replacement for a ufunc that keeps its attributes (reduce, at, accumulate, nin, ...)"""
+
+    def __init__(self, orig, fn, name):
+        self._orig = orig
+        self._fn = fn
+        self.__name__ = name
+        self.__doc__ = getattr(orig, "__doc__", None)
+
+    def __call__(self, *a, **k):
+        return self._fn(*a, **k)
+
+    def __getattr__(self, item):
+        return getattr(self._orig, item)
+
+
 def stub(mod, name, contract):
     def deco(fn):
         orig = getattr(mod, name)
@@ -52,6 +68,8 @@ def stub(mod, name, contract):
         fn.__name__ = name
         fn.__doc__ = getattr(orig, "__doc__", None)
         wrapped = fn(orig) if getattr(fn, "_takes_orig", False) else fn
+        if isinstance(orig, onp.ufunc):
+            wrapped = UfuncStub(orig, wrapped, name)
         setattr(mod, name, wrapped)
         STUBS[(mod.__name__ + "." + name)] = contract
         return wrapped
@@ -205,6 +223,10 @@ def install():
                 return orig(x, *a, **k)
             return f
 
+    _bin("logical_and", "truth-value and (NumPy's object loop returns an operand, its float loop a bool)", lambda x, y: bool(x) and bool(y))
+    _bin("logical_or", "truth-value or", lambda x, y: bool(x) or bool(y))
+    _bin("logical_xor", "truth-value xor", lambda x, y: bool(x) != bool(y))
+    _un("logical_not", "truth-value not", lambda e: not bool(e))
     _un("sinc", "sinc(x) = sin(pi x)/(pi x)", lambda e: (S.L(e) * onp.pi).sin() / (S.L(e) * onp.pi))
     _un("fabs", "fabs(x) = |x| via comparison with 0", lambda e: abs(e))
     _un("positive", "+x", lambda e: e)
